@@ -248,6 +248,9 @@ def run_matrix(chk, accepted, dbgs=(0, 1), args_of=lambda g: [(n, v) for (n, _, 
             if ci == "sat-error":
                 chk.violation({"class": "satisfy-error", "what": "%s || %s" % (x[:160], g.text[:200])}, dict(base, broken="satisfy rejected type-correct witness values"))
                 continue
+            if pruned and ("DIFF" in x or "decode=ERR" in x) and "depprune=same" in x and "mexec=ok" in x:
+                chk.violation({"class": "upstream-prune-encoding", "what": g.text[:300]}, dict(base, broken="the pruned program's encoding does not decode; the dependency's own prune of simfony's healthy unpruned program gives the same bytes (D15)"))
+                continue
             if "DIFF" in x or "decode=ERR" in x:
                 chk.violation({"class": "redeem-encoding", "what": "%s || %s" % (x[:160], g.text[:200])}, dict(base, broken="redeem program: CMR differs from commit / encoding does not decode"))
                 continue
